@@ -333,6 +333,16 @@ fn base_headers(r: &mut Rng, nonce: u64, steps: u32, step_ms: u64) -> Vec<(Strin
             .collect();
         h.push((name, v));
     }
+    if r.chance(1, 15) {
+        // many header fields (hyper's default ceiling is 100) ...
+        for i in 0..r.usize_in(20, 80) {
+            h.push((format!("x-fill-{i}"), format!("v{i}").into_bytes()));
+        }
+    } else if r.chance(1, 15) {
+        // ... or one very long one: a request head of up to 60 KB
+        let n = *r.pick(&[3_000usize, 9_000, 20_000, 60_000]);
+        h.push(("x-long".to_string(), vec![b'k'; r.usize_in(n / 2, n)]));
+    }
     h
 }
 
